@@ -721,6 +721,56 @@ theorem C06_rateprob_strict_mono_dt {v s lu lpu p1 p2 : ℝ} (h0 : 0 < v) (hs : 
     linarith
   linarith
 
+/-- `update_cached` reads only the class, the value and the four unit / dt fields (through `update_factor`): what was cached before
+    (factor, values) and whether the object was initialised play no part; it never touches `v` or the recorded parent. -/
+theorem updateCached_congr {α : Type} (o : NumOps α) (a1 a2 : TP α) (hk : a1.kind = a2.kind) (hv : a1.v = a2.v) (f : Rat)
+    (hf1 : updateFactor a1 = .ok f) (hf2 : updateFactor a2 = .ok f) (uv die : Bool) :
+    (updateCached o a1 uv die).1.factor = some f ∧ (updateCached o a2 uv die).1.factor = some f ∧
+      (uv = true → ∀ vals, (convVal o a1.kind (o.ofRat f) a1.v).1 = some vals →
+        (updateCached o a1 uv die).1.values = some vals ∧ (updateCached o a2 uv die).1.values = some vals) ∧
+      (updateCached o a1 uv die).2 = (updateCached o a2 uv die).2 ∧
+      (updateCached o a1 uv die).1.parentUnit = a1.parentUnit ∧ (updateCached o a1 uv die).1.parentDt = a1.parentDt ∧
+      (updateCached o a1 uv die).1.v = a1.v := by
+  have e2 : convVal o a2.kind (o.ofRat f) a2.v = convVal o a1.kind (o.ofRat f) a1.v := by rw [hk, hv]
+  simp only [updateCached, hf1, hf2, e2]
+  cases uv with
+  | false => simp
+  | true =>
+    rcases hc : convVal o a1.kind (o.ofRat f) a1.v with ⟨vals, r⟩
+    cases vals <;> simp
+
+/-- **Re-linking forgets the previous parent.** Two parameters that agree on what they ARE (class, value, own unit, own dt) —
+    whatever parent each of them was given in the constructor or linked to before, whatever factor / values they cached —
+    end up, once linked to a parent `(pu, d)` the factor to which is defined, with that parent recorded, with the factor
+    `time_ratio(unit, self_dt, pu, d)`, with the same values (whenever `update_values` assigns any) and with the same outcome.
+    (With `C06_dur_steps` / `C06_rate_steps` / the probability formulas, which read the recorded parent, this is what makes the
+    per-step identities hold "for all parent unit/dt combinations" for a parameter that is linked again.) -/
+theorem C06_relink_depends_on_last_parent {α : Type} (o : NumOps α) (t1 t2 : TP α) (hk : t1.kind = t2.kind) (hv : t1.v = t2.v)
+    (hu : t1.unit = t2.unit) (hs : t1.selfDt = t2.selfDt) (pu : String) (d f : Rat)
+    (hf : timeRatio (orElse t1.unit (some pu)) t1.selfDt (some pu) (some d) = .ok f) (uv die : Bool) :
+    let r1 := updateCached o (inherit t1 (some pu) (some d)) uv die
+    let r2 := updateCached o (inherit t2 (some pu) (some d)) uv die
+    r1.1.parentUnit = some pu ∧ r1.1.parentDt = some d ∧ r1.1.factor = some f ∧ r2.1.factor = some f ∧
+      (uv = true → ∀ vals, (convVal o t1.kind (o.ofRat f) t1.v).1 = some vals → r1.1.values = some vals ∧ r2.1.values = some vals) ∧
+      r1.2 = r2.2 ∧ r1.1.v = t1.v := by
+  intro r1 r2
+  have hf1 : updateFactor (inherit t1 (some pu) (some d)) = .ok f := by
+    simpa [updateFactor, inherit, orElse] using hf
+  have hf2 : updateFactor (inherit t2 (some pu) (some d)) = .ok f := by
+    rw [hu, hs] at hf; simpa [updateFactor, inherit, orElse] using hf
+  obtain ⟨h1, h1', h2, h3, h4, h5, h6⟩ := updateCached_congr o _ _ (show (inherit t1 (some pu) (some d)).kind = (inherit t2 (some pu) (some d)).kind from hk)
+    (show (inherit t1 (some pu) (some d)).v = (inherit t2 (some pu) (some d)).v from hv) f hf1 hf2 uv die
+  refine ⟨?_, ?_, h1, h1', h2, h3, h6⟩
+  · rw [show r1 = updateCached o (inherit t1 (some pu) (some d)) uv die from rfl, h4]; simp [inherit, orElse]
+  · rw [show r1 = updateCached o (inherit t1 (some pu) (some d)) uv die from rfl, h5]; simp [inherit, orElse]
+
+example : timeRatio (orElse (some "week") (some "day")) (some 1) (some "day") (some 2) = .ok (7/2) := by decide +kernel
+-- non-vacuity: a duration first linked to (day, 1/2) [14 steps], then to (day, 2): 7/2 steps
+example : (mk (α := Rat) .dur (.scalar 7) (some "day") none none (some 1)).toOption.map (fun t =>
+    ((init ratOps t false (some "day") (some (1/2)) none true true).1.values,
+     (init ratOps (init ratOps t false (some "day") (some (1/2)) none true true).1 false (some "day") (some 2) none true true).1.values)) =
+    some (some (.scalar 14), some (.scalar (7/2))) := by decide +kernel
+
 theorem step_append {α : Type} (s : Store α) (ob : ARef) (op : AOp α) : ∃ t, (op.step s ob).1 = s ++ t := by
   cases op <;> exact ⟨_, rfl⟩
 
